@@ -127,6 +127,8 @@ pub fn longest_match(
     let available_options_count = available_options.len();
 
     if available_options.is_empty() {
+        #[cfg(sqruff_verif)]
+        verif_switches::lm_pruned_to_nothing(segments, matchers, idx, parse_context);
         return Ok((MatchResult::empty_at(idx), None));
     }
 
@@ -141,6 +143,16 @@ pub fn longest_match(
     );
 
     let loc_key = parse_context.loc_key(loc_key);
+    #[cfg(sqruff_verif)]
+    verif_switches::lm_enter(
+        segments,
+        matchers,
+        &available_options,
+        idx,
+        loc_key,
+        !terminators.is_empty(),
+        parse_context,
+    );
 
     let mut best_match = MatchResult::empty_at(idx);
     let mut best_matcher = None;
@@ -148,6 +160,8 @@ pub fn longest_match(
     'matcher: for (matcher_idx, matcher) in enumerate(available_options) {
         let matcher_key = matcher.cache_key();
         let res_match = parse_context.check_parse_cache(loc_key, matcher_key);
+        #[cfg(sqruff_verif)]
+        let verif_hit = res_match.is_some();
 
         let res_match = match res_match {
             Some(res_match) => res_match,
@@ -158,7 +172,12 @@ pub fn longest_match(
             }
         };
 
+        #[cfg(sqruff_verif)]
+        verif_switches::lm_eval(matcher_key, verif_hit, &res_match);
+
         if res_match.has_match() && res_match.span.end == max_idx {
+            #[cfg(sqruff_verif)]
+            verif_switches::lm_exit(&res_match, Some(matcher_key));
             return Ok((res_match, matcher.into()));
         }
 
@@ -176,6 +195,8 @@ pub fn longest_match(
                 );
 
                 if next_code_idx == segments.len() as u32 {
+                    #[cfg(sqruff_verif)]
+                    verif_switches::lm_probe(matcher_key, true);
                     break 'matcher;
                 }
 
@@ -184,13 +205,19 @@ pub fn longest_match(
                         terminator.match_segments(segments, next_code_idx, parse_context)?;
 
                     if terminator_match.has_match() {
+                        #[cfg(sqruff_verif)]
+                        verif_switches::lm_probe(matcher_key, true);
                         break 'matcher;
                     }
                 }
+                #[cfg(sqruff_verif)]
+                verif_switches::lm_probe(matcher_key, false);
             }
         }
     }
 
+    #[cfg(sqruff_verif)]
+    verif_switches::lm_exit(&best_match, best_matcher.as_ref().map(|m| m.cache_key()));
     Ok((best_match, best_matcher))
 }
 
@@ -571,5 +598,161 @@ pub mod verif_switches {
     }
     pub fn prune_off() -> bool {
         PRUNE_OFF.with(|c| c.get())
+    }
+
+    // ---- recorder of `longest_match` calls (what the Gallina model of the loop is compared with)
+    use std::cell::RefCell;
+
+    use super::{ErasedSegment, MatchResult, Matchable, MatchableTrait, ParseContext, first_non_whitespace};
+
+    /// (length, has_match, span end)
+    pub type Res = (u32, bool, u32);
+
+    #[derive(Debug, Clone, Default)]
+    pub struct LmFrame {
+        pub idx: u32,
+        pub max_idx: u32,
+        pub loc: u32,
+        pub has_terms: bool,
+        /// first code token at or after idx: (upper-cased raw, class types)
+        pub tok: Option<(String, Vec<u16>)>,
+        /// every option passed in: cache key and first-token hint
+        pub options: Vec<(u32, Option<(Vec<String>, Vec<u16>)>)>,
+        /// keys of the options that survived pruning, in order
+        pub avail: Vec<u32>,
+        /// options evaluated, in order: key, cache hit, result
+        pub evals: Vec<(u32, bool, Res)>,
+        /// terminator probes after better candidates, in order: candidate key, did it stop the loop
+        pub probes: Vec<(u32, bool)>,
+        pub result: Res,
+        pub chosen: Option<u32>,
+        pub cache_off: bool,
+        pub prune_off: bool,
+    }
+
+    struct Recorder {
+        stack: Vec<LmFrame>,
+        done: Vec<LmFrame>,
+        limit: usize,
+    }
+
+    thread_local! {
+        static REC: RefCell<Option<Recorder>> = const { RefCell::new(None) };
+    }
+
+    /// start recording on this thread (at most `limit` completed calls are kept)
+    pub fn rec_start(limit: usize) {
+        REC.with(|r| *r.borrow_mut() = Some(Recorder { stack: vec![], done: vec![], limit }));
+    }
+    /// stop recording and return the completed calls
+    pub fn rec_take() -> Vec<LmFrame> {
+        REC.with(|r| r.borrow_mut().take().map(|x| x.done).unwrap_or_default())
+    }
+    fn recording() -> bool {
+        REC.with(|r| r.borrow().is_some())
+    }
+    fn res_of(m: &MatchResult) -> Res {
+        (m.len(), m.has_match(), m.span.end)
+    }
+    fn describe(
+        segments: &[ErasedSegment],
+        matchers: &[Matchable],
+        idx: u32,
+        parse_context: &mut ParseContext,
+    ) -> LmFrame {
+        let tok = first_non_whitespace(segments, idx)
+            .map(|(raw, types)| (raw, types.iter().map(|k| k as u16).collect()));
+        let options = matchers
+            .iter()
+            .map(|m| {
+                let hint = m.simple(parse_context, None).map(|(raws, types)| {
+                    let mut raws: Vec<String> = raws.into_iter().collect();
+                    raws.sort();
+                    (raws, types.iter().map(|k| k as u16).collect())
+                });
+                (m.cache_key(), hint)
+            })
+            .collect();
+        LmFrame {
+            idx,
+            max_idx: segments.len() as u32,
+            tok,
+            options,
+            cache_off: cache_off(),
+            prune_off: prune_off(),
+            ..Default::default()
+        }
+    }
+    pub fn lm_pruned_to_nothing(
+        segments: &[ErasedSegment],
+        matchers: &[Matchable],
+        idx: u32,
+        parse_context: &mut ParseContext,
+    ) {
+        if !recording() {
+            return;
+        }
+        let mut f = describe(segments, matchers, idx, parse_context);
+        f.result = (0, false, idx);
+        REC.with(|r| {
+            if let Some(rec) = r.borrow_mut().as_mut() {
+                if rec.done.len() < rec.limit {
+                    rec.done.push(f);
+                }
+            }
+        });
+    }
+    pub fn lm_enter(
+        segments: &[ErasedSegment],
+        matchers: &[Matchable],
+        available: &[Matchable],
+        idx: u32,
+        loc: u32,
+        has_terms: bool,
+        parse_context: &mut ParseContext,
+    ) {
+        if !recording() {
+            return;
+        }
+        let mut f = describe(segments, matchers, idx, parse_context);
+        f.loc = loc;
+        f.has_terms = has_terms;
+        f.avail = available.iter().map(|m| m.cache_key()).collect();
+        REC.with(|r| {
+            if let Some(rec) = r.borrow_mut().as_mut() {
+                rec.stack.push(f);
+            }
+        });
+    }
+    pub fn lm_eval(key: u32, hit: bool, res: &MatchResult) {
+        REC.with(|r| {
+            if let Some(rec) = r.borrow_mut().as_mut() {
+                if let Some(f) = rec.stack.last_mut() {
+                    f.evals.push((key, hit, res_of(res)));
+                }
+            }
+        });
+    }
+    pub fn lm_probe(key: u32, stop: bool) {
+        REC.with(|r| {
+            if let Some(rec) = r.borrow_mut().as_mut() {
+                if let Some(f) = rec.stack.last_mut() {
+                    f.probes.push((key, stop));
+                }
+            }
+        });
+    }
+    pub fn lm_exit(res: &MatchResult, chosen: Option<u32>) {
+        REC.with(|r| {
+            if let Some(rec) = r.borrow_mut().as_mut() {
+                if let Some(mut f) = rec.stack.pop() {
+                    f.result = res_of(res);
+                    f.chosen = chosen;
+                    if rec.done.len() < rec.limit {
+                        rec.done.push(f);
+                    }
+                }
+            }
+        });
     }
 }
